@@ -124,10 +124,27 @@ func closeTarget(w *World, c ssa.CallInstruction) ssa.Value {
 type pipeInfo struct {
 	Fn       *ssa.Function
 	Obj      *types.Func
-	Copiers  []*ssa.Go          // go copier(ch, r, w)
+	Copiers  []*ssa.Go // go copier(ch, r, w) — in PipeData or in a helper it calls with its own parameters
 	ChanOf   map[*ssa.Go]ssa.Value
 	ReaderOf map[*ssa.Go]int // param index of PipeData the copier reads from
 	WriterOf map[*ssa.Go]int
+	Callees  map[*ssa.Go][]*ssa.Function // possible copier functions (a func-valued variable may select one)
+	RArg     map[*ssa.Go]int             // argument positions of reader / writer in the go call
+	WArg     map[*ssa.Go]int
+}
+
+// funcValues resolves a called value to the set of functions it may denote.
+func funcValues(v ssa.Value) []*ssa.Function {
+	var out []*ssa.Function
+	for _, root := range provenance(v, provOpts{}) {
+		switch x := root.(type) {
+		case *ssa.Function:
+			out = append(out, x)
+		case *ssa.MakeClosure:
+			out = append(out, x.Fn.(*ssa.Function))
+		}
+	}
+	return out
 }
 
 func analysePipeData(w *World) (*pipeInfo, string) {
@@ -139,47 +156,84 @@ func analysePipeData(w *World) (*pipeInfo, string) {
 	if fn == nil || len(fn.Params) != 2 {
 		return nil, "streams.PipeData: unexpected signature"
 	}
-	pi := &pipeInfo{Fn: fn, Obj: obj, ChanOf: map[*ssa.Go]ssa.Value{}, ReaderOf: map[*ssa.Go]int{}, WriterOf: map[*ssa.Go]int{}}
-	allInstrs(fn, func(in ssa.Instruction) {
-		g, ok := in.(*ssa.Go)
-		if !ok {
-			return
-		}
-		callee := g.Call.StaticCallee()
-		if callee == nil {
-			return
-		}
-		var ch ssa.Value
-		rd, wr := -1, -1
-		for i, a := range g.Call.Args {
-			if i >= len(callee.Params) {
-				break
-			}
-			pt := callee.Params[i].Type()
-			if _, isChan := pt.Underlying().(*types.Chan); isChan {
-				roots := rootsOf(w, a)
-				if len(roots) == 1 {
-					ch = roots[0]
+	pi := &pipeInfo{Fn: fn, Obj: obj, ChanOf: map[*ssa.Go]ssa.Value{}, ReaderOf: map[*ssa.Go]int{}, WriterOf: map[*ssa.Go]int{},
+		Callees: map[*ssa.Go][]*ssa.Function{}, RArg: map[*ssa.Go]int{}, WArg: map[*ssa.Go]int{}}
+	// scan f; pmap maps f's parameter index to PipeData's parameter index
+	var scan func(f *ssa.Function, pmap map[int]int, depth int)
+	scan = func(f *ssa.Function, pmap map[int]int, depth int) {
+		toRoot := func(v ssa.Value) []int {
+			var out []int
+			for _, i := range paramsOf(w, f, v) {
+				if r, ok := pmap[i]; ok {
+					out = append(out, r)
 				}
-				continue
 			}
-			ps := paramsOf(w, fn, a)
-			if len(ps) != 1 {
-				continue
-			}
-			if isReaderType(w, pt) && rd < 0 {
-				rd = ps[0]
-			} else if isWriterType(w, pt) && wr < 0 {
-				wr = ps[0]
-			}
+			return out
 		}
-		if ch != nil && rd >= 0 && wr >= 0 {
-			pi.Copiers = append(pi.Copiers, g)
-			pi.ChanOf[g] = ch
-			pi.ReaderOf[g] = rd
-			pi.WriterOf[g] = wr
-		}
-	})
+		allInstrs(f, func(in ssa.Instruction) {
+			switch g := in.(type) {
+			case *ssa.Go:
+				var callees []*ssa.Function
+				if sc := g.Call.StaticCallee(); sc != nil {
+					callees = []*ssa.Function{sc}
+				} else {
+					callees = funcValues(g.Call.Value)
+				}
+				if len(callees) == 0 {
+					return
+				}
+				sig := callees[0].Signature
+				var ch ssa.Value
+				rd, wr, ra, wa := -1, -1, -1, -1
+				for i, a := range g.Call.Args {
+					if i >= sig.Params().Len() {
+						break
+					}
+					pt := sig.Params().At(i).Type()
+					if _, isChan := pt.Underlying().(*types.Chan); isChan {
+						roots := rootsOf(w, a)
+						if len(roots) == 1 {
+							ch = roots[0]
+						}
+						continue
+					}
+					ps := toRoot(a)
+					if len(ps) != 1 {
+						continue
+					}
+					if isReaderType(w, pt) && rd < 0 {
+						rd, ra = ps[0], i
+					} else if isWriterType(w, pt) && wr < 0 {
+						wr, wa = ps[0], i
+					}
+				}
+				if ch != nil && rd >= 0 && wr >= 0 {
+					pi.Copiers = append(pi.Copiers, g)
+					pi.ChanOf[g], pi.ReaderOf[g], pi.WriterOf[g] = ch, rd, wr
+					pi.Callees[g], pi.RArg[g], pi.WArg[g] = callees, ra, wa
+				}
+			case *ssa.Call:
+				if depth >= 2 {
+					return
+				}
+				sc := g.Call.StaticCallee()
+				if sc == nil || !inModule(sc) || len(sc.Blocks) == 0 {
+					return
+				}
+				sub := map[int]int{}
+				for i, a := range g.Call.Args {
+					ps := toRoot(a)
+					if len(ps) == 1 {
+						sub[i] = ps[0]
+					}
+				}
+				if len(sub) == 2 {
+					scan(sc, sub, depth+1)
+				}
+			}
+		})
+	}
+	scan(fn, map[int]int{0: 0, 1: 1}, 0)
 	return pi, ""
 }
 
@@ -285,24 +339,15 @@ func ruleR01_3(w *World, r *Report) {
 		"copiers", len(pi.Copiers))
 	seen := map[*ssa.Function]bool{}
 	for _, g := range pi.Copiers {
-		callee := g.Call.StaticCallee()
-		if seen[callee] {
-			continue
-		}
-		seen[callee] = true
-		rIdx, wIdx := -1, -1
-		for i, a := range g.Call.Args {
-			ps := paramsOf(w, pi.Fn, a)
-			if len(ps) == 1 && ps[0] == pi.ReaderOf[g] && rIdx < 0 && isReaderType(w, callee.Params[i].Type()) {
-				rIdx = i
+		for _, callee := range pi.Callees[g] {
+			if seen[callee] {
+				continue
 			}
-			if len(ps) == 1 && ps[0] == pi.WriterOf[g] && wIdx < 0 && isWriterType(w, callee.Params[i].Type()) {
-				wIdx = i
-			}
+			seen[callee] = true
+			ok, why := copierReachesCopy(w, callee, pi.RArg[g], pi.WArg[g], 0)
+			r.Check(ok, "R01.3", "func:streams."+callee.Name()+"|copy-loop", w.Pos(callee.Pos()),
+				"copier hands its reader and writer to io.Copy/io.CopyBuffer (loops until EOF, handles short writes)", why)
 		}
-		ok, why := copierReachesCopy(w, callee, rIdx, wIdx, 0)
-		r.Check(ok, "R01.3", "func:streams."+callee.Name()+"|copy-loop", w.Pos(callee.Pos()),
-			"copier hands its reader and writer to io.Copy/io.CopyBuffer (loops until EOF, handles short writes)", why)
 	}
 }
 
@@ -375,21 +420,42 @@ func chanCapacityIn(w *World, r *Report, fn *ssa.Function) {
 				case *ssa.ChangeType:
 					visitRefs(x)
 				case *ssa.MakeInterface, *ssa.Store, *ssa.Return, *ssa.MakeClosure, *ssa.Phi:
+					// a receive-only view of the channel cannot add senders
+					if ct, ok := v.Type().Underlying().(*types.Chan); ok && ct.Dir() == types.RecvOnly {
+						continue
+					}
 					escapes = true
 				case *ssa.Go:
-					callee := x.Call.StaticCallee()
-					if callee == nil || len(callee.Blocks) == 0 {
+					var callees []*ssa.Function
+					if sc := x.Call.StaticCallee(); sc != nil {
+						callees = []*ssa.Function{sc}
+					} else {
+						callees = funcValues(x.Call.Value)
+					}
+					if len(callees) == 0 {
 						escapes = true
 						continue
 					}
 					for i, a := range x.Call.Args {
-						if a == v && i < len(callee.Params) {
+						if a != v {
+							continue
+						}
+						best := sender{g: x}
+						for _, callee := range callees {
+							if len(callee.Blocks) == 0 || i >= len(callee.Params) {
+								escapes = true
+								continue
+							}
 							n, loop, esc := sendsOnParam(callee, callee.Params[i], 0)
 							if esc {
 								escapes = true
 							}
-							senders = append(senders, sender{x, n, loop})
+							if n > best.sends {
+								best.sends = n
+							}
+							best.loop = best.loop || loop
 						}
+						senders = append(senders, best)
 					}
 				case *ssa.Call:
 					escapes = true
@@ -863,19 +929,37 @@ func ruleR17_1(w *World, r *Report) {
 	for _, g := range pi.Copiers {
 		chans[pi.ChanOf[g]] = true
 	}
+	isReport := func(ch ssa.Value) bool {
+		if chans[soleRoot(w, ch)] {
+			return true
+		}
+		// completion channels handed back by a helper that started the copiers
+		if ct, ok := ch.Type().Underlying().(*types.Chan); ok && len(pi.Copiers) > 0 {
+			if n, ok := ct.Elem().(*types.Named); ok && n.Obj().Name() == "error" && n.Obj().Pkg() == nil {
+				for _, root := range provenance(ch, provOpts{}) {
+					if ex, ok := root.(*ssa.Extract); ok {
+						if c, ok := ex.Tuple.(*ssa.Call); ok && c.Call.StaticCallee() != nil && inModule(c.Call.StaticCallee()) {
+							return true
+						}
+					}
+				}
+			}
+		}
+		return false
+	}
 	// receives: select over completion channels or unary receive
 	var recvs []ssa.Instruction
 	allInstrs(fn, func(in ssa.Instruction) {
 		switch x := in.(type) {
 		case *ssa.Select:
 			for _, st := range x.States {
-				if st.Dir == types.RecvOnly && chans[soleRoot(w, st.Chan)] {
+				if st.Dir == types.RecvOnly && isReport(st.Chan) {
 					recvs = append(recvs, in)
 					return
 				}
 			}
 		case *ssa.UnOp:
-			if x.Op == token.ARROW && chans[soleRoot(w, x.X)] {
+			if x.Op == token.ARROW && isReport(x.X) {
 				recvs = append(recvs, in)
 			}
 		}
@@ -915,7 +999,7 @@ func ruleR17_1(w *World, r *Report) {
 	seen := map[*ssa.Function]bool{}
 	var work []*ssa.Function
 	for _, g := range pi.Copiers {
-		work = append(work, g.Call.StaticCallee())
+		work = append(work, pi.Callees[g]...)
 	}
 	eofVar := w.ByPath["io"].Types.Scope().Lookup("EOF")
 	for len(work) > 0 {
